@@ -33,7 +33,11 @@ func NewSlotDef(s *slip.Scope, def slip.Object, depth int) *SlotDef {
 	case slip.Symbol:
 		sd.name = string(td)
 	case slip.List:
-		// If length is less than 1 then it would be nil and not a list.
+		// The reader gives nil for (), a list built by a program can still
+		// be empty.
+		if len(td) == 0 {
+			slip.TypePanic(s, depth, "slot-specification", td, "symbol", "list of a slot-name and options")
+		}
 		if sym, ok := td[0].(slip.Symbol); ok {
 			sd.name = string(sym)
 		} else {
